@@ -31,8 +31,8 @@ RULE = ('programs of 1..7 (quick) / 1..10 statements from 36 statement kinds (si
         'prefixed or UNPREFIXED continuation lines, backslash continuation, compound if/for/with, def/async def/class, decorated, comment, '
         'comment inside brackets, expression/print/value+print, semicolon line, top-level await statement and expression, block and inline '
         'directives; expression statements whose VALUE is an un-awaited coroutine, a generator, an async generator, an awaitable object, a '
-        'function or a lambda — their bodies record in the TRACE if anything drives or calls them) x prompt styles (>>> everywhere / ... continuations / bare ... terminator) x indentation (none, 2/4/8 blanks, TAB, '
-        'blanks+TAB) x header prose / google header x CORRECT wants after any statement (also wants that are or end in the ellipsis line `...`) x blank lines and prose between chunks, '
+        'function or a lambda — their bodies record in the TRACE if anything drives or calls them; statements that RAISE, some after writing to stdout — expected through a traceback want, after which the doctest must go on, or unexpected as last statement, where it must fail; comment lines that merely start with a word like failing/disable/script) x prompt styles (>>> everywhere / ... continuations / bare ... terminator) x indentation (none, 2/4/8 blanks, TAB, '
+        'blanks+TAB) x header prose / google header / a preceding DisableDoctest:/Ignore:/Script:/… block with source AND want lines that is not part of the doctest x CORRECT wants after any statement (also wants that are or end in the ellipsis line `...`) x blank lines and prose between chunks, '
         'prose DIRECTLY after source or want lines at a smaller indentation, a new example DIRECTLY after a want at any other column '
         '(shallower or deeper), different columns after blank lines/prose; plus the '
         'exhaustive family `pairs`: every kind in every style after every kind of predecessor (plain / inline directive / want / block '
@@ -77,8 +77,8 @@ def _alternate(ctx, corr, count):
     import io
     import contextlib
     for _ in range(count):
-        pa = P.gen_program(rng, max_len=5, allow_await=False, allow_directive=False)
-        pb = P.gen_program(rng, max_len=4, allow_await=False, allow_directive=False)
+        pa = P.gen_program(rng, max_len=5, allow_await=False, allow_directive=False, allow_raise=False)
+        pb = P.gen_program(rng, max_len=4, allow_await=False, allow_directive=False, allow_raise=False)
         ta, la, fa = pa.render()
         tb, lb, fb = pb.render()
         # A gets one more statement that runs B
@@ -182,7 +182,7 @@ def replay(ctx, failing):
     with contextlib.redirect_stdout(io.StringIO()):
         run = E.run_example(ex)
     why = E.expectations(prog, text, line_of, stmt_first, ex, run)
-    print('plain program : TRACE/stdout/bindings = %r' % (P.reference(prog.source, prog.uses_await())[:3],))
+    print('plain program : TRACE/stdout/bindings = %r' % (P.reference_prog(prog)[:3],))
     print('real doctest  : TRACE=%r logged=%r bindings=%r summary=%r' % (run['T'], run['logged'], run['ns'], run['summary']))
     for w in why:
         print(' - ' + w)
